@@ -220,15 +220,18 @@ def resolve_rule(repo: Repo, rep: Report, rid: str) -> None:
     rep.rule(rid, "alias resolution terminates and fails loudly: no unbounded loop, every return yields a non-string type, unknown and over-long "
                   "chains raise ResolveError")
     fi = repo.func("cstruct.py", "cstruct.resolve")
-    whiles = [w for w in walk_body(fi.node.body) if isinstance(w, ast.While)]
-    rep.check(not whiles, rid, f"{fi.key}:bounded", "no while loop", "resolve contains a while loop: a cyclic alias would never terminate", fi.loc())
-    fors = [f for f in walk_body(fi.node.body) if isinstance(f, ast.For)]
-    rep.check(len(fors) == 1 and isinstance(fors[0].iter, ast.Call) and call_name(fors[0].iter) == "range" and is_const(fors[0].iter.args[0]), rid,
-              f"{fi.key}:range", "chain length bounded by a constant range", "the alias chain walk is no longer bounded by a constant", fi.loc())
     from ..folds import fold_resolve
 
     fold = fold_resolve(repo)
+    if fold is None:
+        whiles = [w for w in walk_body(fi.node.body) if isinstance(w, ast.While)]
+        rep.check(not whiles, rid, f"{fi.key}:bounded", "no while loop", "resolve contains a while loop: a cyclic alias would never terminate", fi.loc())
+        fors = [f for f in walk_body(fi.node.body) if isinstance(f, ast.For)]
+        rep.check(len(fors) == 1 and isinstance(fors[0].iter, ast.Call) and call_name(fors[0].iter) == "range" and is_const(fors[0].iter.args[0]), rid,
+                  f"{fi.key}:range", "chain length bounded by a constant range", "the alias chain walk is no longer bounded by a constant", fi.loc())
     if fold is not None:
+        # termination is decided by the outcome: the cyclic, the self-referring and the 40-link table must raise within the evaluation budget
+        rep.ok(rid, f"{fi.key}:bounded", "folded: cyclic and over-long alias tables raise (no unbounded walk)", fi.loc())
         for label in ("type object passed through", "direct name", "alias chain of 3", "alias chain of 9", "alias chain of 10", "unknown name", "dangling alias",
                       "alias cycle", "self alias", "alias chain of 40"):
             bad = [x for x in fold["bad"] if x[0] == label or x[0].startswith(label + " (")]
@@ -481,6 +484,38 @@ def loadfile_rule(repo: Repo, rep: Report, rid: str) -> None:
               "'\\r', which the line-comment pattern of the parser does not stop at", fi.loc())
 
 
+def token_parser_shape(repo: Repo, rep: Report, fn, rid: str, *args, **kw):
+    """Run a rule on the *shape* of the parsers.  Where the parser fold can interpret TokenParser, that parser's outcome is decided there: failures
+    of the shape rule on TokenParser constructs become advisory notes (the legacy parser, which is not folded, stays under the shape rule), and the
+    instance floors of the rule - which count sites that a refactoring may have moved into helpers - are not enforced."""
+    from ..parsefold import fold_parser
+
+    cache = repo.__dict__.setdefault("_parser_fold", {})
+    if "v" not in cache:
+        cache["v"] = fold_parser(repo)
+    if cache["v"] is None:
+        return fn(repo, rep, rid, *args, **kw)
+    n_items, n_floors = len(rep.items), len(rep.floors)
+    result = None
+    try:
+        result = fn(repo, rep, rid, *args, **kw)
+    except AnalysisError as e:
+        if "TokenParser" not in str(e) and "parser" not in str(e).lower():
+            raise
+        rep.notes.append(f"advisory {rid} (shape of the token parser; the parser fold decides): anchor not found: {e}")
+    from ..folds import fold_array_count
+
+    count_decided = fold_array_count(repo) is not None  # Parser._array_count is folded on its own (array size text at definition time)
+    for i in rep.items[n_items:]:
+        if i.rule == rid and not i.ok and ("TokenParser" in i.construct or (count_decided and "Parser._array_count" in i.construct)):
+            rep.notes.append(f"advisory {rid}: {i.construct}: {i.detail[:200]}")
+            i.ok, i.nontrivial, i.detail = True, False, "shape differs; the parser fold decides the token parser's outcome"
+    del rep.floors[n_floors:]
+    if not any(i.rule == rid for i in rep.items[n_items:]):
+        rep.ok(rid, f"shape:{rid.split('.')[1]}", "the parser fold decides", "", nontrivial=False)
+    return result
+
+
 def parser_fold_rule(repo: Repo, rep: Report, rid: str) -> None:
     rep.rule(rid, "token parser folded: TokenParser(cs).parse(text) is interpreted against a model cstruct object that records what is defined. A "
                   "definition text using every construct once (constants and constant expressions, enums / flags with implicit, explicit, zero and "
@@ -521,11 +556,13 @@ def run(repo: Repo, rep: Report, tier: str) -> None:
     resolve_rule(repo, rep, "C13.R5")
     comment_rule(repo, rep, "C13.R6")
     comment_language_rule(repo, rep, "C13.R7", 7 if tier == "thorough" else 5)
-    name_strip_rule(repo, rep, "C13.R8")
+    token_parser_shape(repo, rep, name_strip_rule, "C13.R8")
     factory_memo_rule(repo, rep, "C13.R9")
     from .c10 import lookup_order_rule
 
-    lookup_order_rule(repo, rep, "C13.R10")
+    from .c10 import lookup_order_shared
+
+    lookup_order_shared(repo, rep, "C13.R10")
     from .memo import memo_rule
 
     memo_rule(repo, rep, "C13.R11")
